@@ -17,7 +17,8 @@ NOTES = ['a note', 'x', 'two words', 'line one\nline two', 'first\n\nthird after
 ACTIONS = ['cascade', 'restrict', 'set null', 'set default', 'no action']
 INDEX_TYPES = ['btree', 'hash', 'gin', 'gist', 'brin', 'spgist']
 COLORS = ['#fff', '#AbCdEf', '#123456', '#000']
-COMMENTS = ['a comment', 'c', 'two words here', 'with # and \' and "', 'second line', 'stars **', '*', 'x */ y'.replace(' */', '')]
+COMMENTS = ['a comment', 'c', 'two words here', 'with # and \' and "', 'second line', 'stars **', '*', 'x */ y'.replace(' */', ''),
+            'path C:\\legacy\\dumps\\', 'ends with backslash \\']
 
 
 class safe_pools:
@@ -147,7 +148,7 @@ def gen_schema(r, size=None, features=1.0):
             else:
                 ty = ('plain', r.choice(TYPES[:10]))
             dk = r.choice(['none'] * 5 + ['int', 'int0', 'float', 'true', 'false', 'null', 'str', 'str_empty', 'expr']) if f > 0 else 'none'
-            d = {'none': None, 'int': ('int', r.choice([1, 42, 1000000, 7])), 'int0': ('int', 0),
+            d = {'none': None, 'int': ('int', r.choice([1, 42, 1000000, 7, 9007199254740993, 123456789012345678901234567890])), 'int0': ('int', 0),
                  'float': ('float', r.choice(['1.5', '0.0', '10.25', '3.0', '0.5', '123.456', '52.5200066', '0.0012345678', '1234567.125', '0.1000001'])),
                  'true': ('bool', True), 'false': ('bool', False), 'null': ('null', None),
                  'str': ('str', r.choice(NOTES + ['true', 'NULL', '0'])), 'str_empty': ('str', ''),
@@ -172,6 +173,21 @@ def gen_schema(r, size=None, features=1.0):
         A['tables'].append({'schema': sc, 'name': nm, 'alias': alias, 'columns': cols, 'indexes': idxs,
                             'note': pick_text(r, NOTES, 0.6), 'header_color': r.choice(COLORS) if r.random() < 0.2 * f else None,
                             'props': [], 'comment': None})
+    # a twin: the same table name (and the same column names) in another schema — every name-based shortcut
+    # that forgets the schema confuses the two
+    if A['tables'] and r.random() < 0.12 * f and size is None:
+        import copy
+        src = r.choice(A['tables'])
+        others = [s_ for s_ in SCHEMAS if (s_, src['name']) not in tnames]
+        if others:
+            tw = copy.deepcopy(src)
+            tw['schema'] = r.choice(others)
+            tw['alias'] = None
+            tw['indexes'] = []
+            for c_ in tw['columns']:
+                c_['pk'] = False
+            tnames.add((tw['schema'], tw['name']))
+            A['tables'].insert(r.randint(0, len(A['tables'])), tw)
     tabs = A['tables']
     # references (standalone or inline, decided by the style at render time through 'form')
     for _ in range(r.choice([0, 1, 1, 2, 3]) if (tabs and f > 0) else 0):
@@ -202,7 +218,7 @@ def gen_schema(r, size=None, features=1.0):
         A['groups'].append({'name': r.choice(['g', 'grp', 'my group', 'G_2']) + str(gi), 'items': items,
                             'note': pick_text(r, NOTES, 0.6), 'color': r.choice(COLORS) if r.random() < 0.3 else None, 'comment': None})
     for si in range(r.choice([0, 0, 1, 2]) if f > 0 else 0):
-        A['stickies'].append({'name': r.choice(['sticky', 'n1', 'my note']) + str(si), 'text': r.choice(NOTES)})
+        A['stickies'].append({'name': r.choice(['sticky', 'n1', 'my note']) + str(si), 'text': r.choice(NOTES + [''])})
     if r.random() < 0.4 * f:
         items = []
         for k in r.sample(['database_type', 'author', 'my key', 'version'], r.randint(0, 3)):
